@@ -524,9 +524,14 @@ def run(tier, seed, replay):
                           "exceptions": [{"use": c20_cfg.f_text(u["use"]), "def": c20_cfg.f_text(u["def"]),
                                           "witness": u["witness"], "what": sorted(set(s["what"] for s in u["sites"]))}
                                          for u in x["exceptions"]]}
-    if tier == "thorough":
-        # the full matrix leaves tens of GB of build output behind: drop it (the quick tier rebuilds what it needs)
-        import shutil
+    # the build matrix leaves GBs of output behind (every feature set is a separate artefact): drop it when it grows
+    import shutil
+    rc_du, out_du = common.sh(["du", "-sm", TARGET])
+    try:
+        size_mb = int(out_du.split()[0])
+    except Exception:
+        size_mb = 0
+    if tier == "thorough" or size_mb > 6000:
         shutil.rmtree(TARGET, ignore_errors=True)
     return chk.finish(
         proof=st,
